@@ -15,4 +15,7 @@ pub mod aws;
 
 pub mod volume;
 
+#[cfg(all(nexrad_verif, feature = "aws"))]
+pub mod verif;
+
 pub mod result;
